@@ -4,8 +4,8 @@ annotation of every IR node of real SSA CFGs, for each of the three primes, equa
 propagation model's; (L1) a reference interpreter executes the same SSA CFG under random
 parameter/signal valuations: every value an annotated node takes must be the claimed constant;
 CS0009 (`constant branch condition`) findings must agree with the observed decisions.
-Known finding: claims that flow through a phi lacking an argument for an incoming path on which
-the variable is still unassigned (hypothesis PhiComplete)."""
+Claims that flow through a phi lacking an argument for an incoming path on which the variable is still
+unassigned are tracked separately (hypothesis PhiComplete; repaired in 2fdaae7)."""
 import collections
 import json
 import vlib
@@ -35,6 +35,13 @@ HAND = [
     "template T(n) { signal input in; signal output out; var k = 253; component nb = Num2Bits(k); nb.in <== in; out <== nb.out[0]; }",
     "template T(n) { signal input in; signal output out; var k = 254; component nb = Num2Bits(k + 0); nb.in <== in; out <== nb.out[0]; }",
     "template T(n) { signal input in; signal output out; signal s; s <== 5; if (s == 5) { out <== in; } else { out <== 0; } }",
+    # a signal assigned by two statements on different paths: constant on one, not on the other
+    "template T(n) { signal input in; signal output out; signal s; if (n == 1) { s <== 1; } else { s <== in; } if (s == 1) { out <== in; } else { out <== 0; } }",
+    "template T(n) { signal input in; signal output out; signal s; if (n == 1) { s <== in; } else { s <== 1; } if (s == 1) { out <== in; } else { out <== 0; } }",
+    "template T(n) { signal input in; signal output out; signal s; if (n == 1) { s <-- 3; } else { if (n == 2) { s <-- in * 2; } else { s <-- 3; } } out <== (s == 3) ? in : 0; }",
+    "template T(n) { signal input in; signal output out; signal s; if (n == 1) { s <== 2; } else { s <== 2; } if (s == 2) { out <== in; } else { out <== 0; } }",
+    "template T(n) { signal input in; signal output out; signal s; if (n == 1) { s <== 2; if (s == 2) { out <== in; } else { out <== 1; } } else { s <== in; out <== 0; } }",
+    "template T(n) { signal input in; signal output out; signal s; var k = 0; if (n == 1) { s <== 4; k = s + 1; } else { s <== in; k = s + 1; } if (k == 5) { out <== in; } else { out <== 0; } }",
 ]
 
 
